@@ -794,7 +794,7 @@ pub fn pool(f: &FieldRow) -> (Vec<&'static str>, Vec<&'static str>) {
             if de.ends_with("package_list") || de.ends_with("copyrights") {
                 (vec!["a deb x optional", "l1\nl2", "", "a\n", "2020 A\n2021 B"], vec![])
             } else if de.ends_with("deserialize_list") {
-                (vec!["a", "a\nb", "", "a\n", "a\n\nb", "a\r\nb"], vec![])
+                (vec!["a", "a\nb", "", "a\n", "a\n\nb", "a\r\nb", "foo_1.0-1 [amd64, i386]\nlibfoo1_1.0-1 [all]", "a b"], vec![])
             } else {
                 (vec!["a", "a b c", "", " a  b ", "a\nb", "main contrib", "x #y z"], vec![])
             }
